@@ -175,6 +175,65 @@ var trConfs = []trConf{
 		stmts: map[string][]string{"appendSenderBytes, err := zeroPadBytes(senderBytes, 32)": {
 			"err := if (zeroPadBytes senderBytes 32).isNone then 1 else 0", "appendSenderBytes := (zeroPadBytes senderBytes 32).getD []"}},
 		returns: map[string]string{"return nil, err": "none", "return append(payload, appendSenderBytes...), nil": "some (payload ++ appendSenderBytes)"}},
+	{key: "x/tokenfactory/keeper.Keeper.mintTo", lean: "tfMintTo", ret: "Nat",
+		params: []trParam{{"deconstructFails", "Bool"}, {"mintCoinsCode", "Nat"}, {"addrBad", "Bool"}, {"sendCode", "Nat"}},
+		init:   []string{"let mut err : Nat := 0"},
+		atoms:  map[string]string{"err != nil": "err != 0"},
+		stmts: map[string][]string{
+			"_, _, err := types.DeconstructDenom(amount.Denom)":                                {"err := if deconstructFails then 4 else 0"},
+			"err = k.bankKeeper.MintCoins(ctx, types.ModuleName, sdk.NewCoins(amount))": {"err := mintCoinsCode"},
+			"addr, err := sdk.AccAddressFromBech32(mintTo)":                                  {"err := if addrBad then 6 else 0"}},
+		returns: map[string]string{"return err": "err",
+			"return k.bankKeeper.SendCoinsFromModuleToAccount(ctx, types.ModuleName, addr, sdk.NewCoins(amount))": "sendCode"}},
+	{key: "x/tokenfactory/keeper.Keeper.burnFrom", lean: "tfBurnFrom", ret: "Nat",
+		params: []trParam{{"deconstructFails", "Bool"}, {"addrBad", "Bool"}, {"sendCode", "Nat"}, {"burnCoinsCode", "Nat"}},
+		init:   []string{"let mut err : Nat := 0"},
+		atoms:  map[string]string{"err != nil": "err != 0"},
+		stmts: map[string][]string{
+			"_, _, err := types.DeconstructDenom(amount.Denom)": {"err := if deconstructFails then 4 else 0"},
+			"addr, err := sdk.AccAddressFromBech32(burnFrom)":  {"err := if addrBad then 6 else 0"},
+			"err = k.bankKeeper.SendCoinsFromAccountToModule(ctx, addr, types.ModuleName, sdk.NewCoins(amount))": {"err := sendCode"}},
+		returns: map[string]string{"return err": "err",
+			"return k.bankKeeper.BurnCoins(ctx, types.ModuleName, sdk.NewCoins(amount))": "burnCoinsCode"}},
+	{key: "x/tokenfactory/keeper.msgServer.Mint", lean: "tfMint", ret: "TfOutcome",
+		prelude: "/-- what a token factory handler does with an authenticated message: refuse it (1 authority metadata unreadable, 3 not the admin,\n    4 not a factory denomination, 6 address does not parse, 10 no such denomination, other codes: what the bank returned) or carry it out -/\ninductive TfOutcome where\n  | rejected (code : Nat)\n  | done\nderiving DecidableEq, Repr",
+		params: []trParam{{"denomExists", "Bool"}, {"authorityErr", "Bool"}, {"creator", "Nat"}, {"admin", "Option Nat"}, {"mintToCode", "Nat"}},
+		init:   []string{"let mut err : Nat := 0"},
+		atoms:  map[string]string{"err != nil": "err != 0", "msg.Metadata.Creator != authorityMetadata.GetAdmin()": "some creator != admin"},
+		skip:   []string{"sdkCtx := sdk.UnwrapSDKContext(ctx)"},
+		stmts: map[string][]string{
+			"_, denomExists := server.bankKeeper.GetDenomMetaData(ctx, msg.Amount.Denom)":                      {},
+			"authorityMetadata, err := server.Keeper.GetAuthorityMetadata(ctx, msg.Amount.GetDenom())": {"err := if authorityErr then 1 else 0"},
+			"err = server.Keeper.mintTo(ctx, msg.Amount, msg.Metadata.Creator)":                         {"err := mintToCode"}},
+		returns: map[string]string{"return nil, types.ErrDenomDoesNotExist.Wrapf(\"denom: %s\", msg.Amount.Denom)": ".rejected 10",
+			"return nil, err": ".rejected err", "return nil, types.ErrUnauthorized": ".rejected 3", "return &types.MsgMintResponse{}, nil": ".done"}},
+	{key: "x/tokenfactory/keeper.msgServer.Burn", lean: "tfBurn", ret: "TfOutcome",
+		params: []trParam{{"authorityErr", "Bool"}, {"creator", "Nat"}, {"admin", "Option Nat"}, {"burnFromCode", "Nat"}},
+		init:   []string{"let mut err : Nat := 0"},
+		atoms:  map[string]string{"err != nil": "err != 0", "msg.Metadata.Creator != authorityMetadata.GetAdmin()": "some creator != admin"},
+		skip:   []string{"sdkCtx := sdk.UnwrapSDKContext(ctx)"},
+		stmts: map[string][]string{
+			"authorityMetadata, err := server.Keeper.GetAuthorityMetadata(ctx, msg.Amount.GetDenom())": {"err := if authorityErr then 1 else 0"},
+			"err = server.Keeper.burnFrom(ctx, msg.Amount, msg.Metadata.Creator)":                       {"err := burnFromCode"}},
+		returns: map[string]string{"return nil, err": ".rejected err", "return nil, types.ErrUnauthorized": ".rejected 3", "return &types.MsgBurnResponse{}, nil": ".done"}},
+	{key: "x/tokenfactory/keeper.msgServer.ChangeAdmin", lean: "tfChangeAdmin", ret: "TfOutcome",
+		params: []trParam{{"authorityErr", "Bool"}, {"creator", "Nat"}, {"admin", "Option Nat"}, {"setAdminCode", "Nat"}},
+		init:   []string{"let mut err : Nat := 0"},
+		atoms:  map[string]string{"err != nil": "err != 0", "msg.Metadata.Creator != authorityMetadata.GetAdmin()": "some creator != admin"},
+		skip:   []string{"sdkCtx := sdk.UnwrapSDKContext(ctx)"},
+		stmts: map[string][]string{
+			"authorityMetadata, err := server.Keeper.GetAuthorityMetadata(ctx, msg.Denom)": {"err := if authorityErr then 1 else 0"},
+			"err = server.Keeper.setAdmin(ctx, msg.Denom, msg.NewAdmin)":                    {"err := setAdminCode"}},
+		returns: map[string]string{"return nil, err": ".rejected err", "return nil, types.ErrUnauthorized": ".rejected 3", "return &types.MsgChangeAdminResponse{}, nil": ".done"}},
+	{key: "x/tokenfactory/keeper.msgServer.SetDenomMetadata", lean: "tfSetDenomMetadata", ret: "TfOutcome",
+		params: []trParam{{"metadataInvalid", "Bool"}, {"authorityErr", "Bool"}, {"creator", "Nat"}, {"admin", "Option Nat"}},
+		init:   []string{"let mut err : Nat := 0"},
+		atoms:  map[string]string{"err != nil": "err != 0", "msg.Metadata.Creator != authorityMetadata.GetAdmin()": "some creator != admin"},
+		skip:   []string{"sdkCtx := sdk.UnwrapSDKContext(ctx)", "server.Keeper.bankKeeper.SetDenomMetaData(ctx, msg.DenomMetadata)"},
+		stmts: map[string][]string{
+			"err := msg.DenomMetadata.Validate()": {"err := if metadataInvalid then 7 else 0"},
+			"authorityMetadata, err := server.Keeper.GetAuthorityMetadata(ctx, msg.DenomMetadata.Base)": {"err := if authorityErr then 1 else 0"}},
+		returns: map[string]string{"return nil, err": ".rejected err", "return nil, types.ErrUnauthorized": ".rejected 3", "return &types.MsgSetDenomMetadataResponse{}, nil": ".done"}},
 	{key: "x/metrix/keeper.calculateUptime", lean: "calculateUptimeGuard", ret: "Bool",
 		params: []trParam{{"window", "Int"}, {"missed", "Int"}},
 		// only the guard is arithmetic; the division goes through big.Float (modelled in C14's score arithmetic)
@@ -866,7 +925,7 @@ func (c *trCtx) block(stmts []ast.Stmt, ind string, out *[]string) {
 
 // statements that only log or emit an event
 func isLogOrEvent(text string) bool {
-	for _, p := range []string{"k.Logger(ctx).", "logger.", "liblog.FromSDKLogger(", "keeperutil.EmitEvent("} {
+	for _, p := range []string{"k.Logger(ctx).", "logger.", "liblog.FromSDKLogger(", "keeperutil.EmitEvent(", "sdkCtx.EventManager().EmitEvent"} {
 		if strings.HasPrefix(text, p) {
 			return true
 		}
